@@ -99,6 +99,70 @@ class SetV:
         self.enum = enum
 
 
+class MapV:
+    """dict with keys of one scalar sort and values that are tuples of scalars (or one
+    scalar): a presence array plus one array per component.  Mutable like a Python dict
+    (the arrays are replaced in place), copied by .snapshot()."""
+
+    def __init__(self, ksort, present, comps, is_tuple):
+        self.ksort = ksort
+        self.present = present
+        self.comps = list(comps)  # [(z3 array, sort tag)]
+        self.is_tuple = is_tuple
+
+    def snapshot(self):
+        return MapV(self.ksort, self.present, list(self.comps), self.is_tuple)
+
+    def value_at(self, k):
+        vals = [Sym(z3.Select(a, k), srt) for a, srt in self.comps]
+        return tuple(vals) if self.is_tuple else vals[0]
+
+    # interpreter protocol
+    def contains(self, ip, x):
+        return mk(z3.Select(self.present, term(x, self.ksort)), "bool")
+
+    def get_item(self, ip, k):
+        kt = term(k, self.ksort)
+        if not ip.pure:
+            if not ip.branch(mk(z3.Select(self.present, kt), "bool")):
+                raise PyRaise(ExcV("KeyError", ()))
+        return self.value_at(kt)
+
+    def set_item(self, ip, k, v):
+        kt = term(k, self.ksort)
+        vs = list(v) if self.is_tuple else [v]
+        if len(vs) != len(self.comps):
+            raise EngineError("map value of the wrong arity")
+        self.present = z3.Store(self.present, kt, z3.BoolVal(True))
+        self.comps = [(z3.Store(a, kt, term(x, srt)), srt) for (a, srt), x in zip(self.comps, vs)]
+
+    def truthy(self):
+        raise EngineError("truthiness of a symbolic map")
+
+
+class PredSetV:
+    """set of scalars of one sort as a characteristic array"""
+
+    def __init__(self, ksort, present):
+        self.ksort = ksort
+        self.present = present
+
+    def snapshot(self):
+        return PredSetV(self.ksort, self.present)
+
+    def contains(self, ip, x):
+        return mk(z3.Select(self.present, term(x, self.ksort)), "bool")
+
+    def get_attr(self, ip, name):
+        if name == "add":
+            from . import interp as I
+
+            def add(ip_, a, k):
+                self.present = z3.Store(self.present, term(a[0], self.ksort), z3.BoolVal(True))
+            return I.PyFn("add", add)
+        raise EngineError(f"set.{name} on a symbolic set")
+
+
 class SizedV:
     """bytes-like ghost: only its length is known"""
 
